@@ -5,7 +5,7 @@ Each model is validated against the native behaviour by the conformance corpus `
 import re
 import z3
 from .engine import (Agg, Cell, Ref, SlotCell, Str, MapM, SeqM, IterM, Closure, FnItem, EnvFn, Unsupported, Panic, INT_RANGE, unit, some, none, ok, err, tup,
-                     load, store, deref, deref_all, clone_val, is_conc, is_z3, simp, term_eq, b_not, outer_ty)
+                     load, store, deref, deref_all, clone_val, is_conc, is_z3, simp, term_eq, b_not, outer_ty, strip_generics)
 
 ARITH = {'Add': 'add', 'Sub': 'sub', 'Mul': 'mul', 'Div': 'div', 'Rem': 'rem', 'BitAnd': 'bitand', 'BitOr': 'bitor', 'BitXor': 'bitxor', 'Shl': 'shl', 'Shr': 'shr'}
 
@@ -311,7 +311,7 @@ def ext(s, ctx, func, g, tc, A, caller, ln, last):
     if tc and tc[3].strip().startswith('dyn ') and A:
         recv = deref_all(A[0])
         if isinstance(recv, Agg) and recv.ty == 'Box' and recv.fields: recv = deref_all(recv.fields[0])
-        tyn = recv.ty if isinstance(recv, Agg) else None
+        tyn = recv.ty if isinstance(recv, Agg) else (strip_generics(recv.name).split('::')[-1] if isinstance(recv, FnItem) else None)          # a unit struct arrives as a bare path constant
         if tyn:
             c = [f for f in s.p.methods.get((tyn, tc[2]), [])]
             if len(c) == 1: r = yield from s.call_fn(ctx, c[0], list(A)); return r
@@ -419,6 +419,13 @@ def ext(s, ctx, func, g, tc, A, caller, ln, last):
             n = simp(A[1])
             if not is_conc(n): raise Unsupported('take with a symbolic count')
             return IterM([clone_val(it.repeat) for _ in range(n)])
+        if m == 'scan':
+            base = yield from B._iter_items(s, ctx, it); st_ = Cell(A[1], 'scan state'); out = []
+            for x in base:
+                o = yield from s.call_callable(ctx, A[2], [Ref(st_), x])
+                if o.variant == 0: break
+                out.append(o.fields[0])
+            return IterM(out)
         if m in ('take_while', 'skip_while', 'inspect', 'map_while'):
             it.adapters.append((m, A[1])); it.state = getattr(it, 'state', {}); return it
         if m in ('take', 'skip', 'step_by', 'zip', 'chain', 'rev', 'flat_map', 'flatten', 'peekable', 'fuse', 'cycle') and (it.adapters or getattr(it, 'genfn', None) is not None or m not in ('rev',)):
@@ -641,6 +648,17 @@ def ext(s, ctx, func, g, tc, A, caller, ln, last):
         d = deref_all(A[0]); i = B._conc_index(ctx, A[1], len(d.items) + 1)
         if i is None: raise Panic('`at` split index out of bounds', 'index')
         tail = d.items[i:]; del d.items[i:]; return SeqM(tail, d.kind)
+    if E('Vec::dedup_by_key') or E('Vec::dedup_by'):
+        d = deref_all(A[0]); out = []
+        for i in range(len(d.items)):
+            if out:
+                if last == 'dedup_by_key':
+                    k1 = yield from s.call_callable(ctx, A[1], [Ref(Cell(out[-1], 'a'))]); k2 = yield from s.call_callable(ctx, A[1], [Ref(SlotCell(d.items, i))])
+                    same = term_eq(k1, k2)
+                else: same = yield from s.call_callable(ctx, A[1], [Ref(SlotCell(d.items, i)), Ref(Cell(out[-1], 'prev'))])
+                if ctx.branch(same): continue
+            out.append(d.items[i])
+        d.items[:] = out; return unit()
     if E('Vec::dedup'):
         d = deref_all(A[0]); out = []
         for x in d.items:
@@ -666,6 +684,39 @@ def ext(s, ctx, func, g, tc, A, caller, ln, last):
         if n is None: raise Panic('assertion failed: n <= self.len()', 'assert')
         if last == 'rotate_right': n = len(d.items) - n
         d.items[:] = d.items[n:] + d.items[:n]; return unit()
+    if (tc and tc[0] in ('HashMap', 'HashSet') and tc[1] == 'Extend' and tc[2] == 'extend') or E('HashMap::extend') or E('HashSet::extend'):
+        mp = deref_all(A[0]); sv = deref_all(A[1])
+        if isinstance(sv, MapM): pairs = [(it_[0], it_[1]) for it_ in sv.items]
+        else:
+            if isinstance(sv, IterM): items = yield from B._iter_items(s, ctx, sv)
+            elif isinstance(sv, SeqM): items = list(sv.items)
+            elif isinstance(sv, Agg) and sv.ty == 'array': items = list(sv.fields)
+            else: return NotImplemented
+            pairs = [((deref_all(x).fields[0], deref_all(x).fields[1]) if mp.kind != 'HashSet' else (x, unit())) for x in items]
+        for k_, v_ in pairs:
+            i_ = B._find(ctx, mp, B._key(k_))
+            if i_ == len(mp.items): mp.items.append([k_, v_])
+            elif mp.kind != 'HashSet': mp.items[i_][1] = v_
+        return unit()
+    if re.search(r'HashMap::(into_keys|into_values|drain)$', g):
+        mp = deref_all(A[0]) if isinstance(A[0], Ref) else A[0]
+        if last == 'into_keys': return IterM([it_[0] for it_ in mp.items])
+        if last == 'into_values': return IterM([it_[1] for it_ in mp.items])
+        items = [tup(it_[0], it_[1]) for it_ in mp.items]; mp.items.clear(); return IterM(items)
+    if tc and tc[0] == 'Cow' and tc[2] in ('deref', 'as_ref', 'borrow', 'clone', 'to_string', 'into_owned', 'to_mut', 'eq', 'ne') or re.search(r'Cow::(<.*>::)?(into_owned|to_mut|is_borrowed|is_owned)$', func):
+        c_ = deref_all(A[0])
+        if isinstance(c_, Agg) and c_.ty == 'Cow':
+            inner = deref_all(c_.fields[0])
+            if last in ('eq', 'ne'):
+                o_ = deref_all(A[1]); o_ = deref_all(o_.fields[0]) if isinstance(o_, Agg) and o_.ty == 'Cow' else o_
+                r_ = term_eq(inner, o_); return r_ if last == 'eq' else b_not(r_)
+            if last == 'clone': return Agg('Cow', c_.variant, [c_.fields[0]])
+            if last == 'is_borrowed': return c_.variant == 0
+            if last == 'is_owned': return c_.variant == 1
+            if last == 'to_mut':
+                if c_.variant == 0: c_.variant = 1; c_.fields[0] = clone_val(inner)
+                return Ref(SlotCell(c_.fields, 0))
+            return inner if last in ('into_owned', 'to_string') else (Ref(Cell(inner, 'cow')) if not isinstance(inner, Str) else inner)
     if tc and tc[0] in ('VecDeque', 'Vec') and tc[1] == 'Extend' and tc[2] == 'extend':
         d = deref_all(A[0]); src = A[1]; sv = deref_all(src)
         if isinstance(sv, IterM): items = yield from B._iter_items(s, ctx, sv)
